@@ -1,3 +1,113 @@
-From Coq Require Import List.
-Theorem placeholder_C20 : True. Proof. exact I. Qed.
-Print Assumptions placeholder_C20.
+(* C20 - No input can corrupt memory in any program of the suite (level: other).
+   What is PROVED here concerns bounds-explicit models of the buffer layer and three parsers; the rest of the code
+   is only executed on sanitised builds (checks/C20.py).  Only statements; proofs in Mem/*Proofs.v.
+   Models: Mem/Stralloc.v (gen_allocdefs.h readyplus/ready/append, stralloc_catb.c, stralloc_opyb.c, quote.c doit:
+   32-bit unsigned arithmetic with the __builtin_*_overflow guards written out; every function returns the index
+   ranges it writes), Mem/TokCount.v (the counting pass of token822_parse, against the filling pass Addr/Tok.v),
+   Mem/Netstr.v (qmail-qmtpd/qmqpd getlen, the QMTP recipient buffer). *)
+From Coq Require Import ZArith List.
+From NQ Require Import Addr.Tok Mem.TokCount Mem.TokCountProofs Mem.Stralloc Mem.StrallocProofs Mem.Netstr Mem.NetstrProofs.
+Import ListNotations.
+
+(* token822_parse: for EVERY input the first pass fails exactly when the second does, and otherwise allocates exactly
+   the number of tokens and characters the second pass writes - no write beyond either array *)
+Theorem token822_count_pass_is_exact : forall s : bytes,
+  match count_pass s, parse s with
+  | Some (nt, nc), Some ts => nt = length ts /\ nc = list_sum (map tok_chars ts)
+  | None, None => True
+  | _, _ => False
+  end.
+Proof. exact count_pass_exact. Qed.
+Print Assumptions token822_count_pass_is_exact.
+
+Local Open Scope Z_scope.
+(* stralloc: for every well-formed state (len <= a < 2^32), every n < 2^32 and either outcome of the allocator:
+   the result is well formed; on success every index written lies inside the (new) block, the content is the old
+   content plus the n bytes, the capacity never shrinks; a length computation that would pass 2^32 is refused and
+   nothing changes *)
+Theorem stralloc_catb_safe : forall (x : sa) (src : list N) (n : Z) (alloc_ok : bool),
+  wf x -> 0 <= n < 4294967296 ->
+  let r := catb x src n alloc_ok in
+  wf (r_sa r) /\
+  (r_ok r = true ->
+     writes_in_block r /\
+     exists l : Z, l = (match s_alloc x with Some _ => s_len x | None => 0 end) /\
+       r_writes r = [(l, l + n); (l + n, l + n + 1)] /\ s_len (r_sa r) = l + n /\
+       s_data (r_sa r) = (match s_alloc x with Some _ => s_data x | None => [] end) ++ firstn (Z.to_nat n) src /\
+       exists a' : Z, s_alloc (r_sa r) = Some a' /\ l + n + 1 <= a' < 4294967296 /\
+                      (match s_alloc x with Some a => a <= a' | None => True end)) /\
+  (r_ok r = false -> r_writes r = []) /\
+  (r_ok r = false -> s_alloc x <> None -> r_sa r = x) /\
+  (match s_alloc x with
+   | Some _ => 4294967296 <= s_len x + n + 1 -> r_ok r = false /\ r_sa r = x
+   | None => 4294967296 <= n + 1 -> r_ok r = false /\ r_sa r = x
+   end).
+Proof. exact catb_safe. Qed.
+Print Assumptions stralloc_catb_safe.
+Theorem stralloc_copyb_safe : forall (x : sa) (src : list N) (n : Z) (alloc_ok : bool),
+  wf x -> 0 <= n < 4294967296 ->
+  let r := copyb x src n alloc_ok in
+  wf (r_sa r) /\
+  (r_ok r = true ->
+     writes_in_block r /\ r_writes r = [(0, n); (n, n + 1)] /\ s_len (r_sa r) = n /\
+     s_data (r_sa r) = firstn (Z.to_nat n) src /\
+     exists a' : Z, s_alloc (r_sa r) = Some a' /\ n + 1 <= a' < 4294967296 /\
+                    (match s_alloc x with Some a => a <= a' | None => a' = n + 1 end)) /\
+  (r_ok r = false -> r_writes r = []) /\
+  (4294967296 <= n + 1 -> r_ok r = false /\ r_sa r = x) /\
+  (r_ok r = false -> s_alloc x <> None -> r_sa r = x).
+Proof. exact copyb_safe. Qed.
+Print Assumptions stralloc_copyb_safe.
+Theorem stralloc_append_safe : forall (x : sa) (c : N) (alloc_ok : bool),
+  wf x ->
+  let r := append x c alloc_ok in
+  wf (r_sa r) /\
+  (r_ok r = true ->
+     writes_in_block r /\
+     exists l : Z, r_writes r = [(l, l + 1)] /\ s_len (r_sa r) = l + 1 /\
+                   l = (match s_alloc x with Some _ => s_len x | None => 0 end) /\
+                   s_data (r_sa r) = (match s_alloc x with Some _ => s_data x | None => [] end) ++ [c]) /\
+  (r_ok r = false -> r_writes r = [] /\ r_sa r = (match s_alloc x with Some _ => x | None => zero_len x end)) /\
+  (match s_alloc x with Some _ => 4294967296 <= s_len x + 1 -> r_ok r = false | None => True end).
+Proof. exact append_safe. Qed.
+Print Assumptions stralloc_append_safe.
+Theorem stralloc_readyplus_spec : forall (x : sa) (n : Z) (alloc_ok : bool),
+  wf x -> 0 <= n < 4294967296 ->
+  let (b, x') := readyplus x n alloc_ok in
+  match s_alloc x with
+  | Some a =>
+    s_len x' = s_len x /\ s_data x' = s_data x /\ (b = false -> x' = x) /\
+    (4294967296 <= n + s_len x -> b = false) /\
+    exists a' : Z, s_alloc x' = Some a' /\ a <= a' < 4294967296 /\ (b = true -> n + s_len x' <= a')
+  | None => b = alloc_ok /\ s_len x' = 0 /\ s_data x' = [] /\ s_alloc x' = (if b then Some n else None)
+  end.
+Proof. exact readyplus_spec. Qed.
+Print Assumptions stralloc_readyplus_spec.
+(* quote.c doit(): 2*len+2 is computed with overflow checks and bounds every index written *)
+Theorem quote_doit_writes_fit : forall (out : sa) (src : list N) (inlen : Z) (alloc_ok : bool),
+  wf out -> 0 <= inlen < 4294967296 ->
+  let r := quote_doit out src inlen alloc_ok in
+  wf (r_sa r) /\
+  (r_ok r = true ->
+     writes_in_block r /\
+     exists j a' : Z, r_writes r = [(0, j)] /\ s_len (r_sa r) = j /\ s_alloc (r_sa r) = Some a' /\
+       2 <= j <= 2 * inlen + 2 /\ 2 * inlen + 2 <= a' < 4294967296 /\ j = Z.of_nat (length (s_data (r_sa r)))) /\
+  (r_ok r = false -> r_writes r = []) /\
+  (4294967296 <= 2 * inlen + 2 -> r_ok r = false /\ r_sa r = out).
+Proof. exact quote_doit_safe. Qed.
+Print Assumptions quote_doit_writes_fit.
+
+(* netstring lengths never wrap (the guard comes before the multiplication) and stay below 2^31; the QMTP recipient
+   plus the RELAYCLIENT suffix and both terminators stay inside the 1000-byte buffer whenever the code accepts *)
+Theorem netstring_length_never_wraps : forall inp : list Z, getlen inp = getlen_ideal_loop inp 0.
+Proof. exact getlen_no_wrap. Qed.
+Print Assumptions netstring_length_never_wraps.
+Theorem netstring_length_bound : forall (inp : list Z) (v : Z) (rest : list Z), getlen inp = GOk v rest -> 0 <= v <= 2000000009.
+Proof. exact getlen_bound. Qed.
+Print Assumptions netstring_length_bound.
+Theorem qmtp_recipient_buffer_safe : forall (len biglen : Z) (relayclient : option Z) (ws : list (Z * Z)),
+  0 <= len < 18446744073709551616 -> 0 <= biglen <= 2000000009 ->
+  match relayclient with Some l => 0 <= l < 2147483648 | None => True end ->
+  rcpt_decide len biglen relayclient = RAccept ws -> forall k : Z, in_writes k ws -> 0 <= k < 1000.
+Proof. exact rcpt_decide_safe. Qed.
+Print Assumptions qmtp_recipient_buffer_safe.
